@@ -273,7 +273,7 @@ def make_connection():
     return p, clock
 
 
-def scenario(kinds, order, dup=True):
+def scenario(kinds, order, dup=True, loss_at=None):
     """kinds[i] in R (return) E (error with text) e (empty error) T (expiry); order = completion order"""
     from twisted.python import failure
     from txdbus import error, message
@@ -313,6 +313,26 @@ def scenario(kinds, order, dup=True):
     now = 0
     for step, i in enumerate(order):
         k = kinds[i]
+        if loss_at == step:
+            # the connection is lost with the calls of order[step:] outstanding: each fails once with the loss reason,
+            # at once no timer and no bookkeeping remains, and nothing more happens when the clock runs on
+            reason = failure.Failure(RuntimeError('lost'))
+            try:
+                p.connectionLost(reason)
+            except Exception as e:
+                return 'connection loss before step %d raised %s: %s' % (step, type(e).__name__, e)
+            for j in order[step:]:
+                if len(outs[j]) != 1 or outs[j][0] is not reason:
+                    return 'connection loss with call %d outstanding: its outcomes %r' % (j, outs[j])
+                done.add(j)
+            f = check('right after the connection loss before step %d' % step)
+            if f:
+                return f
+            try:
+                clock.advance(1000)
+            except Exception as e:
+                return 'clock run after the connection loss raised %s: %s' % (type(e).__name__, e)
+            return check('after the connection loss before step %d and a clock run' % step)
         try:
             if k == 'T':
                 clock.advance(dl[i] - now + 0.001)
@@ -380,6 +400,8 @@ def convention_cases():
         p.callRemote('/o', 'M', interface='org.e.I', destination='org.e', timeout=5 if i else None).addBoth(outs[i].append)
     reason = failure.Failure(RuntimeError('lost'))
     p.connectionLost(reason)
+    if clock.getDelayedCalls():
+        return 'connection loss: %d deadline timers left for calls that have completed' % len(clock.getDelayedCalls())
     clock.advance(100)
     if any(len(o) != 1 or o[0] is not reason for o in outs) or p._pendingCalls or clock.getDelayedCalls():
         return 'connection loss: outcomes %r, pending %r, timers %d' % (outs, p._pendingCalls, len(clock.getDelayedCalls()))
@@ -405,6 +427,11 @@ def bounded(tier, seed):
                 f = scenario(kinds, order)
                 if f:
                     return n, f, {'kinds': ''.join(kinds), 'order': list(order)}
+                for la in range(N):
+                    n += 1
+                    f = scenario(kinds, order, loss_at=la)
+                    if f:
+                        return n, f, {'kinds': ''.join(kinds), 'order': list(order), 'connection_lost_before_step': la}
     rnd = random.Random(seed)
     for _ in range(1500 if tier == 'thorough' else 30):
         N = rnd.randrange(3, 6)
@@ -412,9 +439,10 @@ def bounded(tier, seed):
         order = list(range(N))
         rnd.shuffle(order)
         n += 1
-        f = scenario(kinds, order)
+        la = rnd.choice([None] + list(range(N)))
+        f = scenario(kinds, order, loss_at=la)
         if f:
-            return n, f, {'kinds': ''.join(kinds), 'order': order}
+            return n, f, {'kinds': ''.join(kinds), 'order': order, 'connection_lost_before_step': la}
     n += 1
     f = convention_cases()
     if f:
@@ -430,7 +458,7 @@ def replay(function, clause, model):
 def run_bounded(tier, seed):
     n, f, inp = bounded(tier, seed)
     return {'tool': 'interleaving enumeration through the real DBusClientConnection (task.Clock for deadlines)',
-            'bound': 'all kinds x orders for N <= %d calls with duplicates, an unsolicited reply and a late clock run; random N in 3..5; reply-convention table; connection loss; construction failure' % (3 if tier == 'thorough' else 2),
+            'bound': 'all kinds x orders for N <= %d calls with duplicates, an unsolicited reply and a late clock run; each also with the connection lost before any step; random N in 3..5; reply-convention table; connection loss; construction failure' % (3 if tier == 'thorough' else 2),
             'evaluations': n, 'failures': [] if not f else [{'function': 'txdbus.client.DBusClientConnection', 'clause': 'interleaving', 'input': inp, 'detail': f}]}
 
 
